@@ -63,10 +63,14 @@ class Module:
         self._buffers[name] = t
         object.__setattr__(self, name, t)
 
-    def modules(self):
+    def modules(self, _memo=None):
+        memo = _memo if _memo is not None else set()
+        if id(self) in memo:
+            return
+        memo.add(id(self))              # like torch: a module reachable through two parents is yielded once
         yield self
         for m in self._modules.values():
-            yield from m.modules()
+            yield from m.modules(memo)
 
     def children(self):
         return iter(self._modules.values())
@@ -329,6 +333,24 @@ class Flatten(Module):
         return x.flatten(self.start_dim, self.end_dim)
 
 
+class BatchNorm1d(Module):
+    """mode-sensitive layer with buffers: in training mode every forward updates running_mean / num_batches_tracked
+    (the normalisation itself is the identity here: only the state change and the mode are of interest)"""
+    def __init__(self, num_features, momentum=0.1, **k):
+        super().__init__()
+        self.num_features, self.momentum = num_features, momentum
+        self.register_buffer("running_mean", Tensor(np.zeros((num_features,), dtype=object), dtype="float32"))
+        self.register_buffer("num_batches_tracked", Tensor(np.zeros((), dtype=object), dtype="int64"))
+
+    def forward(self, x):
+        if self.training:
+            from fractions import Fraction
+            mean = x.detach().mean(dim=(0, 2)) if x.ndim == 3 else x.detach().mean(dim=0)
+            self.running_mean.a[...] = (self.running_mean * Fraction(9, 10) + mean * Fraction(1, 10)).a
+            self.num_batches_tracked.a[...] = self.num_batches_tracked.a[()] + 1
+        return x
+
+
 class Identity(Module):
     def forward(self, x):
         return x
@@ -374,22 +396,26 @@ def _make_act(name):
 
 
 def max_pool1d(x, kernel_size, stride=None, padding=0, dilation=1, ceil_mode=False, return_indices=False):
-    """argmax positions are decided by forking (first maximum wins, like torch)"""
-    if padding != 0 or dilation != 1 or ceil_mode:
-        raise Inconclusive("max_pool1d with padding/dilation/ceil_mode is not modelled")
+    """arg-max positions are decided by forking (first maximum wins, like torch); implicit padding is -inf and is never
+    selected; indices refer to the unpadded input (torch convention)"""
+    if dilation != 1 or ceil_mode:
+        raise Inconclusive("max_pool1d with dilation/ceil_mode is not modelled")
     K = kernel_size if isinstance(kernel_size, int) else kernel_size[0]
     S = stride if stride else K
     S = S if isinstance(S, int) else S[0]
+    P = padding if isinstance(padding, int) else padding[0]
+    if P * 2 > K:
+        raise RuntimeError("pad should be at most half of effective kernel size")
     N, C, L = x.a.shape
-    Lout = (L - K) // S + 1
+    Lout = (L + 2 * P - K) // S + 1
     out = np.empty((N, C, Lout), dtype=object)
     idx = np.empty((N, C, Lout), dtype=object)
     for n in range(N):
         for c in range(C):
             for t in range(Lout):
-                best = t * S
-                for k in range(1, K):
-                    p = t * S + k
+                cand = [p for p in range(t * S - P, t * S - P + K) if 0 <= p < L]
+                best = cand[0]
+                for p in cand[1:]:
                     if bool(x.a[n, c, p] > x.a[n, c, best]):
                         best = p
                 out[n, c, t] = x.a[n, c, best]
@@ -411,11 +437,22 @@ def max_pool1d(x, kernel_size, stride=None, padding=0, dilation=1, ceil_mode=Fal
 
 def max_unpool1d(x, indices, kernel_size, stride=None, padding=0, output_size=None):
     N, C, Lout = x.a.shape
-    L = output_size[-1]
+    K = kernel_size if isinstance(kernel_size, int) else kernel_size[0]
+    S = stride if stride else K
+    S = S if isinstance(S, int) else S[0]
+    P = padding if isinstance(padding, int) else padding[0]
+    L = output_size[-1] if output_size is not None else (Lout - 1) * S - 2 * P + K
+    if output_size is not None:
+        default = (Lout - 1) * S - 2 * P + K
+        if not (default - S < L < default + S):
+            raise RuntimeError("invalid output_size %s for max_unpool1d (expected about %d)" % (list(output_size), default))
     z = np.empty((N, C, L), dtype=object)
     z[...] = 0
     for cell in np.ndindex(N, C, Lout):
-        z[cell[0], cell[1], int(indices.a[cell])] = x.a[cell]
+        i_ = int(indices.a[cell])
+        if not (0 <= i_ < L):
+            raise RuntimeError("max_unpool1d: index %d out of range for output length %d" % (i_, L))
+        z[cell[0], cell[1], i_] = x.a[cell]
     return Tensor(z, dtype=x.dtype)
 
 
@@ -470,6 +507,7 @@ def make_nn(torch):
     nn.MaxPool2d = MaxPool2d
     nn.Flatten = Flatten
     nn.Identity = Identity
+    nn.BatchNorm1d = BatchNorm1d
     nn.Dropout = Dropout
     nn.MSELoss = MSELoss
     for n in ACT_NAMES:
